@@ -229,7 +229,7 @@ func constructWithValue(sh *engine.Shape) (*constructed, any, error) {
 			c.skipped = "no signing key"
 			return c, val, nil
 		}
-		if sh.Seed%2 == 0 {
+		if (sh.Seed>>8)%2 == 0 {
 			// the LeaseSet's own signing_key field is a revocation key: any key
 			// of the Destination's type is admissible, it need not be the
 			// Destination's key
@@ -344,7 +344,7 @@ func constructWithValue(sh *engine.Shape) (*constructed, any, error) {
 			return c, val, nil
 		}
 		var sk any
-		switch sh.Seed % 4 {
+		switch (sh.Seed >> 8) % 4 {
 		case 0:
 			sk = edp
 		case 1:
@@ -364,7 +364,7 @@ func constructWithValue(sh *engine.Shape) (*constructed, any, error) {
 		inner := refmodel.Expand(sh.Seed, "c06-inner", sh.Size)
 		var els *encrypted_leaseset.EncryptedLeaseSet
 		var err error
-		if sh.Seed%3 == 0 {
+		if (sh.Seed>>12)%3 == 0 {
 			// the other constructor: from a (blinded) Destination whose signing key is the blinded key
 			bid := refmodel.NewIdentity(sh.IdentSeed, sh.Sig, refmodel.EncX25519, "key", 0)
 			bd, derr := libDestination(bid)
